@@ -355,7 +355,7 @@ def run_part(ck, tier):
     return ck
 
 
-def replay(det):
+def replay(det, path=""):
     """Re-run the behaviour of a violation file written by run_part; returns 0/1/2 like check.py --replay."""
     beh = det.get("behaviour")
     if not beh:
@@ -366,11 +366,11 @@ def replay(det):
     if all("exp" in s for s in beh):
         mms = vlib.compare([beh], recs)
         for mm in mms:
-            print("VIOLATION property=C12 (%s: %s)" % (signature(mm, beh), mm["why"]))
+            print("VIOLATION property=C12 replay=%s  (%s: %s)" % (path, signature(mm, beh), mm["why"]))
         return 1 if mms else 0
     events = drop_skipped(vlib.merge_trace([beh], recs))
     ok, matched, _ = vlib.validate_trace("Trace_Connection", events, tag="Trace_Connection_replay")
     if not ok:
-        print("VIOLATION property=C12 (x12 trace rejected at event %d: %s)" % (
-            matched, json.dumps(events[matched])[:400] if matched < len(events) else "-"))
+        print("VIOLATION property=C12 replay=%s  (x12 trace rejected at event %d: %s)" % (
+            path, matched, json.dumps(events[matched])[:400] if matched < len(events) else "-"))
     return 0 if ok else 1
